@@ -1339,10 +1339,10 @@ class Emit:
             if n.startswith('lifetime') or n.startswith('dbg.') or n.startswith('experimental.noalias') or n.startswith('invariant'):
                 return post
             if n.startswith('memcpy') or n.startswith('memmove'):
-                fn = 'memmove' if n.startswith('memmove') else 'memcpy'
-                return ['if (%s) %s(%s, %s, %s);' % (a[2], fn, a[0], a[1], a[2])] + post
+                fn = 'verif_memmove' if n.startswith('memmove') else 'verif_memcpy'
+                return ['%s((uint8_t*)%s, (uint8_t*)%s, %s);' % (fn, a[0], a[1], a[2])] + post
             if n.startswith('memset'):
-                return ['if (%s) memset(%s, %s, %s);' % (a[2], a[0], a[1], a[2])] + post
+                return ['verif_memset((uint8_t*)%s, %s, %s);' % (a[0], a[1], a[2])] + post
             if n.startswith('assume'):
                 return ['__CPROVER_assume(%s);' % a[0]] + post
             if n.startswith('expect'):
@@ -1452,19 +1452,25 @@ def main():
     import argparse
     ap = argparse.ArgumentParser()
     ap.add_argument('ll'); ap.add_argument('-o', default='-'); ap.add_argument('--roots', default=''); ap.add_argument('--append', action='append', default=[])
+    ap.add_argument('--cut', action='append', default=[], help='regex on mangled names: matching defined functions are treated as externals (X_<name>), to be provided by the harness; unprovided => assertion failure when reached')
     ap.add_argument('--provided', default='', help='file listing C names (X_...) defined elsewhere')
     ap.add_argument('--report', default='', help='write JSON report (functions emitted, unmodelled externals)')
     a = ap.parse_args()
     m = parse_module(open(a.ll).read())
     roots = ['@' + r for r in a.roots.split(',') if r] or None
+    cut_names = []
+    for n, f in m.funcs.items():
+        if f.isdef and any(re.search(c, n[1:].strip('"')) for c in a.cut):
+            f.isdef = False; f.blocks = collections.OrderedDict(); cut_names.append(n[1:])
     e = Emit(m, roots)
+    e.cut_names = cut_names
     e.append = a.append
     if a.provided:
         e.provided = set(open(a.provided).read().split())
     c = e.emit_module()
     if a.report:
         import json
-        json.dump({'functions': e.emitted_funcs, 'unmodelled': e.unmodelled}, open(a.report, 'w'))
+        json.dump({'functions': e.emitted_funcs, 'unmodelled': e.unmodelled, 'cut': cut_names}, open(a.report, 'w'))
     if a.o == '-': print(c)
     else: open(a.o, 'w').write(c)
 
